@@ -178,7 +178,7 @@ func (d *driver) workerCmd(c chunk, tag string, replay bool) (*exec.Cmd, string,
 	cmd := exec.Command(argv[0], argv[1:]...)
 	cmd.Env = append(os.Environ(), "GOTRACEBACK=all")
 	if d.m.Race {
-		cmd.Env = append(cmd.Env, "GORACE=halt_on_error=0 history_size=4 log_path="+filepath.Join(d.scratch, "race"))
+		cmd.Env = append(cmd.Env, "GORACE=halt_on_error=0 exitcode=0 history_size=4 log_path="+filepath.Join(d.scratch, "race"))
 	}
 	return cmd, out, journal, errf
 }
